@@ -45,6 +45,13 @@ func init() {
 	ops["ts.pat"] = func(a []string) string { return hx(mpegts.PackPat()) }
 	// ts.pmt <videoCodecId> <audioCodecId>  =>  the 188-byte PMT packet (ids as rtmp2MpegtsFilter passes them, -1 = none seen)
 	ops["ts.pmt"] = func(a []string) string { return hx(mpegts.PackPmt(atoiSigned(a[0]), atoiSigned(a[1]))) }
+	// ts.patpmt <v1> <a1> <v2> <a2>  =>  the PAT+PMT blocks of two streams, each built as rtmp2MpegtsFilter does
+	// (append(PackPat(), PackPmt(v, a)...)) and both held until the second exists: streams must not share them
+	ops["ts.patpmt"] = func(a []string) string {
+		b1 := append(mpegts.PackPat(), mpegts.PackPmt(atoiSigned(a[0]), atoiSigned(a[1]))...)
+		b2 := append(mpegts.PackPat(), mpegts.PackPmt(atoiSigned(a[2]), atoiSigned(a[3]))...)
+		return hx(b1) + " " + hx(b2)
+	}
 	// ts.crc <init> <bytes>  =>  CalcCrc32(init, bytes) in decimal
 	ops["ts.crc"] = func(a []string) string {
 		return strconv.FormatUint(uint64(mpegts.CalcCrc32(uint32(atou64(a[0])), unhx(a[1]))), 10)
@@ -290,6 +297,11 @@ func genC09(g *G) {
 			g.L("corpus").run(fmt.Sprintf("ts.pmt %d %d", v, a))
 		}
 	}
+	ids := []int{int(base.RtmpCodecIdAvc), int(base.RtmpCodecIdHevc), int(base.RtmpSoundFormatAac), int(base.RtmpSoundFormatOpus), -1, 2}
+	for i := 0; i < 12; i++ {
+		g.L("two-streams").run(fmt.Sprintf("ts.patpmt %d %d %d %d", ids[r.Intn(2)], ids[2+r.Intn(4)], ids[r.Intn(2)], ids[2+r.Intn(4)]))
+	}
+	g.L("two-streams").run(fmt.Sprintf("ts.patpmt %d %d %d %d", int(base.RtmpCodecIdAvc), int(base.RtmpSoundFormatAac), int(base.RtmpCodecIdHevc), int(base.RtmpSoundFormatAac)))
 	// every table entry once (init 0xffffffff: index = 0xff ^ byte; init 0: index = byte)
 	for i := 0; i < 256; i++ {
 		g.L("entry").run(fmt.Sprintf("ts.crc 4294967295 %02x", i))
